@@ -105,18 +105,18 @@ func c12ProgramFamilies(r *harness.Run) {
 			return
 		}
 		pr := &progRunner{r: r, prop: "C12", opts: cfg.opts, sigPrefix: "p4/" + cfg.name + "/"}
-		gens := map[string]Gen{"F-growcross": genGrowCross(th), "F-callalign": genCallAlign()}
-		order := []string{"F-growcross", "F-callalign"}
+		gens := map[string]Gen{"F-growcross": genGrowCross(th), "F-callalign": genCallAlign(), "F-cooverflow": genCoOverflow()}
+		order := []string{"F-growcross", "F-callalign", "F-cooverflow"}
 		depths := []int{5, 6}
 		if th {
 			depths = []int{4, 5, 6, 7}
 		}
 		for _, d := range depths {
 			pre := fmt.Sprintf("D%d/", d)
-			for n, g := range map[string]Gen{"F-select": genSelectUnpack(th), "F-closure": genClosure(th), "F-genfor": genGenFor(th), "F-errval": genErrVal(th), "F-callmeta": genMetaCall(th), "F-index": genMetaIndex(th), "F-hostbody": genHostBody(), "F-cochain": genCoChain()} {
+			for n, g := range map[string]Gen{"F-select": genSelectUnpack(th), "F-closure": genClosure(th), "F-genfor": genGenFor(th), "F-errval": genErrVal(th), "F-callmeta": genMetaCall(th), "F-index": genMetaIndex(th), "F-hostbody": genHostBody(), "F-cochain": genCoChain(), "F-cooverflow": genCoOverflow()} {
 				gens[pre+n] = mapGen(g, pre, deepFrame(d))
 			}
-			order = append(order, pre+"F-select", pre+"F-closure", pre+"F-genfor", pre+"F-errval", pre+"F-callmeta", pre+"F-index", pre+"F-hostbody", pre+"F-cochain")
+			order = append(order, pre+"F-select", pre+"F-closure", pre+"F-genfor", pre+"F-errval", pre+"F-callmeta", pre+"F-index", pre+"F-hostbody", pre+"F-cochain", pre+"F-cooverflow")
 		}
 		gens["D6/F-call"] = mapGen(genCall(th), "D6/", deepFrame(6))
 		order = append(order, "D6/F-call")
